@@ -30,10 +30,11 @@ import (
 //     around every operation (overlap events are counted when a goroutine enters
 //     while another one is inside an operation on the same object) and timestamps
 //     come from an atomic logical clock.
-// The sequential baseline is computed BEFORE the goroutines start, on a twin
-// corpus built from the same random stream (so the shared corpus itself is not
-// touched by any operation before the concurrent phase: a lazily written cache
-// would still be written concurrently).
+// The sequential baseline is computed AFTER the goroutines have finished, on a twin
+// corpus built from the same random stream: neither the shared corpus nor any
+// package-level state is touched by an operation before the concurrent phase, so
+// a lazily written cache - inside a value or at package level - is first
+// written concurrently.
 
 type sop struct {
 	op             int // index into ops; -1: private value set operation
@@ -344,22 +345,6 @@ func runSchedule(c *core.Ctx, caseIdx int64, r *core.Rand, sp schedParams) {
 		}
 	}
 
-	// sequential baseline on the twin corpus (once per distinct tuple: the operations are pure)
-	base := map[string]uint64{}
-	for g := range progs {
-		for i := range progs[g] {
-			s := &progs[g][i]
-			if s.op < 0 {
-				continue
-			}
-			k := s.key()
-			if _, ok := base[k]; !ok {
-				h, _ := B.runShared(s)
-				base[k] = h
-			}
-		}
-	}
-
 	// snapshot of the shared corpus (internal state through the hooks: plain reads)
 	snap := func() []string {
 		out := make([]string, 0, len(A.p.vals)+len(A.p.tys)+len(A.p.sets))
@@ -449,6 +434,25 @@ func runSchedule(c *core.Ctx, caseIdx int64, r *core.Rand, sp schedParams) {
 	close(start)
 	wg.Wait()
 	wall := time.Since(t0)
+
+	// sequential baseline on the twin corpus (once per distinct tuple: the operations are pure), computed AFTER the
+	// concurrent phase: computed before it, the baseline warmed every lazily filled package-level cache (compiled
+	// patterns, per-type tables, memos), so the goroutines only ever read it and an unsynchronised fill went unseen
+	// (deliberate break: a map of compiled patterns in stdlib/regexp.go).
+	base := map[string]uint64{}
+	for g := range progs {
+		for i := range progs[g] {
+			s := &progs[g][i]
+			if s.op < 0 {
+				continue
+			}
+			k := s.key()
+			if _, ok := base[k]; !ok {
+				h, _ := B.runShared(s)
+				base[k] = h
+			}
+		}
+	}
 
 	// ---- evaluation (single goroutine from here on)
 	var st schedStats
